@@ -124,6 +124,12 @@ CHECKS["C16"] = dict(
     text="MCSnapshotDir: all interleavings of a local save, a received snapshot and compaction, each as its file-system steps, with power loss anywhere and the start-up cleanup itself interruptible: the recorded snapshot is always on disk and complete, and after the cleanup exactly the recorded snapshot remains; dropping the file sync or the directory sync is refuted (vacuity checks). Real code: hosts of a 3-host cluster (regular, concurrent, on-disk state machines; Pebble and Tan) lose power at a seeded file-system operation while saving (also two saves back to back), exporting, receiving a streamed snapshot (after being left behind a compacted log), shrinking and compacting; after NewNodeHost the directory and the log store record are listed (pre-cleanup predicate CrashLayout), after StartReplica again (CleanLayout: only the recorded snapshot remains, valid per the real validator, no flag, no temporary or orphaned directory), then the replica must reach the recorded snapshot index; panics during recovery are violations.",
     note=NH_NOTE + " Snapshots with external files cannot be produced on the in-memory file system (rsm.Files.PrepareFiles uses os.Link); import is covered by C20.")
 
+CHECKS["C20"] = dict(
+    engine="tlc+nhsim", category="exploration", design_ref="5 C20",
+    technique="TLA+ rule table (Import.tla: acceptance conditions and post-state) enumerated exhaustively by TLC (MCImport) and evaluated by TLC on observations of real tools.ImportSnapshot runs followed by real NodeHost restarts (ImportTrace)",
+    text="Seeded histories on a shard (plain, with a removed replica, with a non-voting replica, both), a snapshot exported at a quiet point, more history afterwards, all hosts closed; then tools.ImportSnapshot on every listed host with a list from the case table: subset of old members, single member, all, old+new machines, entirely new machines (valid), importer not listed, importer listed at another address, removed replica re-admitted, address changed, non-voting listed as regular, snapshot file missing / truncated / one data byte flipped, metadata missing (must be refused, target host's file tree hashed before and after). After valid imports the listed hosts are restarted: membership must be exactly the list, previous members recorded as removed, state equal to the state at the export, a leader elected, a new proposal accepted and visible. Regular / concurrent / on-disk state machines, Pebble and Tan. MCImport: 1.5M (old membership, list, importer, address) combinations, accepted imports are well-formed.",
+    note=NH_NOTE + " Corruptions of the 1 KB header block are outside (known finding under C14); no external snapshot files on the in-memory file system.")
+
 NOT_APPLICABLE = {
     "C13": "encode/decode fidelity and size arithmetic of hand-written codecs over the numeric input space: no state/transition structure for a TLA+ specification to describe (DESIGN.md section 6)",
 }
@@ -177,7 +183,7 @@ def main():
             {"name": "tlc+rsim", "path": "/verif/lib/raftfamily.py",
              "serves_properties": ["C02", "C03", "C06", "C07", "C17", "C18"],
              "kind_free_text": "TLC exhaustive model checking of MCRaft + TLC trace validation (RaftTrace) of executions of the real internal/raft recorded by the rsim harness"},
-            {"name": "tlc+nhsim", "path": "/verif/lib/nhfamily.py", "serves_properties": ["C01", "C04", "C11", "C16"],
+            {"name": "tlc+nhsim", "path": "/verif/lib/nhfamily.py", "serves_properties": ["C01", "C04", "C11", "C16", "C20"],
              "kind_free_text": "TLC model checking (MCPipeline, MCClientHistory) + TLC evaluation (ClientHistoryTrace, PipelineTrace, SMContractTrace) of event streams recorded from in-process clusters of real NodeHosts (harness/root/nhsim_*_test.go)"},
             {"name": "tlc+smsim", "path": "/verif/lib/rsmchecks.py", "serves_properties": ["C05", "C08", "C07"],
              "kind_free_text": "TLC model checking of MCRSM + TLC trace validation (RSMTrace) of real rsm.StateMachine instances driven by harness/rsm/smsim_test.go"},
